@@ -42,6 +42,10 @@ func (s *Server) patchHandlerFunc(w http.ResponseWriter, r *http.Request) {
 	oldQuery := removeQuery(origQuery, "nowMS")
 	oldQuery = removeQuery(oldQuery, "nowDate")
 	mpdPath := mpdPathFromPatchPath(r.URL.Path)
+	if !strings.HasSuffix(mpdPath, ".mpd") {
+		http.Error(w, "patch requests must address an MPD (.mpp)", http.StatusBadRequest)
+		return
+	}
 	r.URL.Path = mpdPath
 	r.URL.RawQuery = oldQuery
 	s.livesimHandlerFunc(old, r)
